@@ -3,7 +3,7 @@
     handlers [n], subscribers honouring their context or not [hon], any number of messages and
     Close callers, timeouts firing at any moment).  Flags: fix5 / fix6 / fix12 = the repairs of
     D5 / D6 / D12 (true = the code after the fix: commits). *)
-From WM Require Import Base.Prelude Router.Close Router.CloseMonitor Router.CloseProofs Router.CloseTheorems Router.CloseWitness Router.CloseRefine Router.CloseStuck.
+From WM Require Import Base.Prelude Router.Close Router.CloseMonitor Router.CloseProofs Router.CloseTheorems Router.CloseWitness Router.CloseRefine Router.CloseStuck Router.CloseTerm.
 
 (** a Close call that returned nil: no handler invocation in progress, no message in the
     pipeline (each one taken from the subscriber has been handled to completion and settled),
@@ -94,14 +94,12 @@ Theorem C06_timeout_returns_error_alone :
 Proof. exact timeout_alone_returns_error. Qed.
 Print Assumptions C06_timeout_returns_error_alone.
 
-(** every Close call returns - the part that is proved: in every reachable state, with any number of
-    RunHandlers calls competing for handlersLock, some lock user (a Close call, or the RunHandlers call
-    that holds handlersLock) can move whenever a Close call has not returned - there is no lock-order
-    cycle between closedLock and handlersLock - and each call takes at most seven steps of its own.  _partial: that the scheduler eventually runs the
-    enabled closer (fairness) is assumed, not proved - that is all that is missing: what can
-    keep the wait from ending without the timeout is characterised completely by
-    [C06_close_waits_only_for_handlers_or_blocked_subscriber] below. *)
-Theorem C06_every_close_returns_partial :
+(** the step-level facts behind termination (the former C06_every_close_returns_partial, kept):
+    in every reachable state, with any number of RunHandlers calls competing for handlersLock, some
+    lock user (a Close call, or the RunHandlers call that holds handlersLock) can move whenever a
+    Close call has not returned - no lock-order cycle between closedLock and handlersLock - and each
+    call takes at most seven steps of its own. *)
+Theorem C06_some_lock_user_can_always_move :
   (forall n hon f5 f6 f12 sched c,
      let s := exec (init n hon f5 f6 f12) sched in
      cp s c <> CNone -> (forall r, cp s c <> CRet r) -> lock_user_can_move s) /\
@@ -109,7 +107,7 @@ Theorem C06_every_close_returns_partial :
      (own_label l c = true -> crank (cp s' c) < crank (cp s c)) /\
      (own_label l c = false -> cp s' c = cp s c)).
 Proof. exact (conj close_never_stuck close_steps_bounded). Qed.
-Print Assumptions C06_every_close_returns_partial.
+Print Assumptions C06_some_lock_user_can_always_move.
 
 (** what can keep a Close call waiting (the general stuck-state theorem of the repaired protocol):
     in every reachable state in which a call waits and NO system step is enabled - i.e. everything
@@ -119,7 +117,7 @@ Print Assumptions C06_every_close_returns_partial.
     subscriber's Close(), or the user had cancelled Run's context before Close signalled (the
     known finding).  Nothing else - no lock, wait group, channel or goroutine of the Router - can
     keep Close from finishing without the timeout.  Together with
-    [C06_every_close_returns_partial] and [C06_timeout_returns_error_alone]: a Close call returns
+    [C06_some_lock_user_can_always_move] and [C06_timeout_returns_error_alone]: a Close call returns
     as soon as the scheduler runs it (fairness of the Go scheduler is the only assumption left). *)
 Theorem C06_close_waits_only_for_handlers_or_blocked_subscriber :
   forall n hon f12 sched c,
@@ -241,3 +239,36 @@ Theorem C06_every_close_returns_refuted_if_runhandlers_takes_closedlock :
   end = true.
 Proof. exact rh_isclosed_deadlock_witness. Qed.
 Print Assumptions C06_every_close_returns_refuted_if_runhandlers_takes_closedlock.
+
+(** EVERY CLOSE CALL RETURNS - termination in the closed system, no fairness assumption.
+    [mu K] is a natural-number measure over all threads of the model (Close calls and RunHandlers
+    calls below the identifier bound [K] of the schedule so far, the two waiters, Run, per handler:
+    subscription, pump, handleClose, loop; per message) that every SYSTEM label strictly decreases
+    (all labels except the environment's: a new Close / RunHandlers call, the user's cancel, an
+    emission, a handler function returning, a subscriber's own Close() returning, the clock).  So
+    from every reachable state of the repaired protocol (any handlers, never-started handlers,
+    subscribers, schedule) every run of system labels has at most [mu K s] steps, and a maximal one
+    ends in a state where every Close call has returned, or is the one waiting for the handlers with
+    the wait LEGITIMATELY held (a handler function still running, a subscriber blocked in its own
+    Close(), or the context cancelled before Close signalled - the known finding), or wants
+    closedLock while that call holds it.  In the legitimately-held case the timeout is enabled and
+    leads to the error return in three steps of that call alone ([C06_timeout_returns_error_alone]),
+    after which the calls that wanted the lock run through the 'already closed' path. *)
+Theorem C06_every_close_returns :
+  forall n u hon f12 sched,
+    let s := exec (init_u n u hon true true f12 true) sched in
+    let K := ids_bound sched in
+    (forall ls s', Forall (fun l => sys_label l = true) ls -> replay s ls = Some s' -> length ls <= mu K s) /\
+    (forall ls s', Forall (fun l => sys_label l = true) ls -> replay s ls = Some s' -> sys_maximal s' ->
+       forall c,
+         cp s' c = CNone \/ (exists r, cp s' c = CRet r) \/
+         (cp s' c = CWait /\ legitimately_held s') \/
+         (cp s' c = CWant /\ exists c', cp s' c' = CWait /\ legitimately_held s')).
+Proof. exact every_close_returns. Qed.
+Print Assumptions C06_every_close_returns.
+
+(** the measure: every system label strictly decreases it *)
+Theorem C06_system_steps_decrease_measure :
+  forall K s l s', Inv s -> hbounded s -> bounded K s -> sys_label l = true -> step s l = Some s' -> mu K s' < mu K s.
+Proof. exact mu_decreases. Qed.
+Print Assumptions C06_system_steps_decrease_measure.
